@@ -25,7 +25,7 @@ import re
 import numpy as np
 
 from .. import common
-from . import staticlink
+from . import pkginit, staticlink
 from ..fmutil import limited, T, ad, err_class, fm, scalar, td, us
 
 MODULES = ["Connect", "ConnectLemmas"]
@@ -179,8 +179,17 @@ class _NodeBase:
             if y["info"]["k"] == "provided" and self._holds(y["info"]["when"]):
                 pi[f"Out{o}"] = _info(self.t0)
             if self._holds(y["dataWhen"]):
-                pd[f"Out{o}"] = np.array(float(y["val"]))
+                # "refine": the component hands over a newer state in every connect call (the cache is overwritten: what
+                # gets published is what was handed over last)
+                self.calls = getattr(self, "calls", 0) + (1 if o == 0 else 0)
+                pd[f"Out{o}"] = np.array(float(y["val"]) + (0.001 * self.calls if y.get("refine") else 0.0))
+        before = {o: bool(self.connector.data_pushed[f"Out{o}"]) for o in range(len(cs["outs"]))}
         self.try_connect(start_time, exchange_infos=ex, push_infos=pi, push_data=pd)
+        for o in range(len(cs["outs"])):
+            if not before[o] and self.connector.data_pushed[f"Out{o}"] and f"Out{o}" in pd:
+                pv = dict(getattr(self, "published_val", {}))
+                pv[o] = float(pd[f"Out{o}"])
+                self.published_val = pv
 
     def _validate(self):
         pass
@@ -342,6 +351,7 @@ def run_impl(spec, order, link_order=None):
             "infos_pushed": [bool(con.infos_pushed[f"Out{o}"]) for o in range(len(cs["outs"]))],
             "data_pushed": [bool(con.data_pushed[f"Out{o}"]) for o in range(len(cs["outs"]))],
             "published": [pushes.get((n.idx, o), []) for o in range(len(cs["outs"]))],
+            "published_val": {str(o): v for o, v in getattr(n, "published_val", {}).items()},
             "held": [[us(t) for t, _d in n.outputs[f"Out{o}"].data] for o in range(len(cs["outs"]))],
             "values": vals,
             "info_repr": [[_info_repr(con.in_infos[f"In{i}"]) for i in range(len(cs["ins"]))],
@@ -382,7 +392,7 @@ def compare(spec, impl, model):
             if has_targets and a != b:
                 return {"what": f"publication times of output {c}.{o}", "impl": a, "model": b}
         for i, (a, b) in enumerate(zip(ic["values"], mc["values"])):
-            if (a is None) != (b is None) or (a is not None and abs(a - b) > 1e-9):
+            if (a is None) != (b is None) or (a is not None and abs(round(a) - b) > 1e-9):   # (refined values: base + k / 1000)
                 return {"what": f"initial pull value of input {c}.{i}", "impl": a, "model": b}
     return None
 
@@ -455,6 +465,9 @@ def oracle(spec, order, impl):
             for i, x in enumerate(cs["ins"]):
                 if x["pull"]:
                     want = spec["comps"][x["src"][0]]["outs"][x["src"][1]]["val"]
+                    if spec["comps"][x["src"][0]]["outs"][x["src"][1]].get("refine"):
+                        # the value that was handed over in the call in which the data were published
+                        want = impl["comps"][x["src"][0]]["published_val"].get(str(x["src"][1]), want)
                     got = ic["values"][i]
                     if got is None or abs(got - want) > 1e-9:
                         return ("every requested initial pull delivers the producer's initial value",
@@ -555,6 +568,8 @@ def gen_random(rng):
                 pool = [["in", i] for i in range(nin)] + [["out", k] for k in range(nout)] + [["data", i] for i in range(nin)]
                 dw = rng.sample(pool, min(len(pool), rng.choice([1, 2])))
             outs.append({"info": gen_info(rng, nin, nout, "out", o), "dataWhen": dw, "val": val})
+            if rng.random() < 0.3:
+                outs[-1]["refine"] = True
             val += 1
         comps.append({"cache": rng.random() < 0.7, "start": starts[c], "time": kinds[c], "ins": ins, "outs": outs})
     return {"start": base + tmin, "explicit_start": rng.random() < 0.6, "comps": comps}
@@ -747,9 +762,24 @@ def run(ctx, res):
         o = staticlink.check(c)
         if o:
             res.fail(c, o[0], o[1], None)
+    # the package's own generators starting later than the composition (engines/pkginit.py)
+    for _ in range(ctx.n(30, 300)):
+        c = pkginit.gen(ctx.rng)
+        res.case(c, True)
+        res.count("part", "package-generator-initial-data")
+        o = pkginit.oracle(c, pkginit.run(c))
+        if o:
+            res.fail(c, o[0], o[1], None)
 
 
 def search(ctx, res, divergences, broken):
+    for _ in range(40):
+        c = pkginit.gen(ctx.rng)
+        res.case(c, True)
+        o = pkginit.oracle(c, pkginit.run(c))
+        if o:
+            res.fail(c, o[0], o[1], None)
+            return
     for _ in range(60):
         c = staticlink.gen(ctx.rng)
         res.case(c, True)
@@ -783,7 +813,7 @@ def _fails(case):
 
 
 def shrink(ctx, f):
-    if f["case"].get("part") == "staticlink":
+    if f["case"].get("part") in ("staticlink", "pkginit"):
         return f
     case = copy.deepcopy(f["case"])
     best = _fails(case)
@@ -859,6 +889,9 @@ def replay(ctx, rp):
     case = rp.get("input") or (rp.get("diverging_case") or {}).get("case")
     if case.get("part") == "staticlink":
         o = staticlink.check(case)
+        return {"fails": bool(o), "oracle": o}
+    if case.get("part") == "pkginit":
+        o = pkginit.oracle(case, pkginit.run(case))
         return {"fails": bool(o), "oracle": o}
     spec = dict(case)
     order = spec.pop("order")
